@@ -31,6 +31,11 @@ CHECKS = {
             "Scenario matrix: 4 request bodies x 31 admin/background bodies, every background body x every admin body (thorough: + request x background x admin triples), on a full assembly wired as in package home (server, filter with file lists, client storage, query log, statistics on bbolt). E2 owns every Mutex/RWMutex(writer preference)/WaitGroup/Once/atomic operation of the rewritten AGH packages and bbolt and explores all schedules with <=1 (quick) / <=2 (thorough) preemptions: no panic, deadlock or livelock, well-formed response, operations succeed. E4 runs every scenario in both start orders with staggered starts under -race.",
             "data races are decided by the race detector's happens-before analysis of observed free runs (order-dependent), not by schedule enumeration; goroutines the code spawns itself are replaced by explicit bodies; DHCP lease operations and restart-type DNS settings are not in the matrix.",
             "DESIGN.md §2.3, §2.4, §4 C05", "E2+E4"),
+    "C07": ("model_checking",
+            "explicit-state BFS over record/flush/rotate/clear/read/config/restart histories on the real query log (three-list reference, full API comparison and paging walks in every state), plus exhaustive enumeration of search-parameter combinations on fixed layouts",
+            "Phase A: histories of depth 5 (quick) / 6-7 (thorough) over 4-6 entry kinds, flush, rotate, clear, API read, restart, logging and anonymisation toggles x 5 (memory size, file) configurations; after every transition the unfiltered API result equals reverse(rotated ++ current ++ memory) on 20 fields, every stored line survives decode+re-encode, and cursor and offset paging with limit 1 and 2 partition the sequence. Phase B: 13-15 layouts x limits x offsets x older_than x search terms x statuses against independent predicates; malformed values never panic; quickMatch over-approximates the full match.",
+            "the async memory-to-disk flush is awaited after every operation (records during a pending flush are excluded by the statement); older_than values that were not returned by the API are checked for soundness only; anonymisation is applied at read time with the current setting.",
+            "DESIGN.md §4 C07", "E1-BFS"),
     "C08": ("exploration",
             "bounded exhaustive enumeration of (ignore lists x anonymisation x client kind x flags x request) through the real pipeline with the real query log and statistics wired as in package home; every storage and reporting surface read after each request",
             "13 ignore-list pairs x anonymisation off/on/switched on by API x 5 persistent-client kinds x ignore flags x ANY-refusal, each x 43 requests (name spellings, IPv4/IPv6/4-in-6 sources, with/without ClientID); after every request the memory buffer (API), the flushed file, the API over the file and /control/stats are inspected and cleared. Restart scenarios check that the API hides entries recorded earlier whose name/client is ignored now, including several ClientID clients behind one address.",
